@@ -66,7 +66,7 @@ def link_harness(prop, cfg, variant, extra_key=""):
         extra_key += "".join(open(f).read() for f in sorted(glob.glob(os.path.join(gen[0], "*.inc"))))
     objs = setup.ensure_objects([prop])
     pdir = os.path.join(VERIF, "props", prop)
-    shim_srcs = sorted(glob.glob(os.path.join(pdir, "shim*.c")))
+    shim_srcs = sorted(glob.glob(os.path.join(pdir, "shim*.c"))) + [os.path.join(VERIF, "engine", "tracker_shim.c")]
     cc, cflags, _dbg, _pf = build.VARIANTS[variant]
     incs = sorted(glob.glob(os.path.join(VERIF, "engine", "*.inc")) + glob.glob(os.path.join(pdir, "*.inc")) + glob.glob(os.path.join(pdir, "*.h")))
     key_src = "".join(open(s).read() for s in shim_srcs + incs) + vdir + " ".join(sorted(objs.values())) + extra_key + \
@@ -120,7 +120,10 @@ def build_programs(prop, cfg):
 
 
 def run_replay(exe, path, quarantine, tier, scratch):
-    cmd = [exe, "--replay", path, "--tier", tier, "--scratch", scratch] + PROGRAM_OPTS
+    opts = []
+    if isinstance(exe, tuple):      # (binary, per-mode options)
+        exe, opts = exe
+    cmd = [exe, "--replay", path, "--tier", tier, "--scratch", scratch] + PROGRAM_OPTS + opts
     if quarantine:
         cmd += ["--quarantine", ",".join(quarantine)]
     r = sh(cmd, timeout=600)
@@ -203,12 +206,40 @@ def _generic(args, cfg, prop, tier, t0, known, open_f, quarantine, run_dir, scra
     modes = cfg["modes"]
     if args.modes:
         modes = {k: v for k, v in modes.items() if k in args.modes.split(",")}
+    # a mode may borrow another property's harness ("harness_from": "C01", "harness_mode": "main") and run it on this
+    # property's build variant with its own options - the verdicts count for THIS property
     exes = {}
+    foreign_cfg = {}
+
+    def ekey(m):
+        return (m.get("harness_from", prop), m.get("variant", "asan"))
+
+    def mode_opts(m):
+        o = []
+        for kk, vv in m.get(tier, {}).get("opt", {}).items():
+            o += ["--opt", "%s=%s" % (kk, vv)]
+        return o
+
     for mname, m in modes.items():
-        variant = m.get("variant", "asan")
-        if variant not in exes:
-            exes[variant] = link_harness(prop, cfg, variant)
-    default_exe = exes[modes[next(iter(modes))].get("variant", "asan")]
+        if ekey(m) not in exes:
+            hp = ekey(m)[0]
+            if hp != prop and hp not in foreign_cfg:
+                foreign_cfg[hp] = json.load(open(os.path.join(VERIF, "props", hp, "prop.json")))
+            exes[ekey(m)] = link_harness(hp, cfg if hp == prop else foreign_cfg[hp], ekey(m)[1])
+    first = modes[next(iter(modes))]
+    default_exe = (exes[ekey(first)], mode_opts(first))
+
+    def exe_for_case(path):
+        head = open(path, errors="replace").read(300)
+        mm = re.search(r"# property (\S+) mode (\S+)", head)
+        if mm:
+            for mname, m in modes.items():
+                if m.get("harness_from", prop) == mm.group(1) and m.get("harness_mode", mname) == mm.group(2):
+                    return (exes[ekey(m)], mode_opts(m))
+            for mname, m in modes.items():
+                if mname == mm.group(2) and "harness_from" not in m:
+                    return (exes[ekey(m)], mode_opts(m))
+        return default_exe
     programs = build_programs(prop, cfg)
     global PROGRAM_OPTS
     PROGRAM_OPTS = []
@@ -220,7 +251,7 @@ def _generic(args, cfg, prop, tier, t0, known, open_f, quarantine, run_dir, scra
 
     # ---------------- single replay
     if args.replay:
-        res = run_replay(default_exe, args.replay, quarantine, tier, scratch)
+        res = run_replay(exe_for_case(args.replay), args.replay, quarantine, tier, scratch)
         print("RESULT " + json.dumps(res))
         if res["kind"] == "ok" or res["kind"] == "skip":
             return 0
@@ -242,18 +273,14 @@ def _generic(args, cfg, prop, tier, t0, known, open_f, quarantine, run_dir, scra
         ap_ = os.path.abspath(path)
         if ap_ in repro_paths:
             continue
-        mode_exe = default_exe
-        mm = re.search(r"# property \S+ mode (\S+)", open(path).read(200))
-        if mm and mm.group(1) in modes:
-            mode_exe = exes[modes[mm.group(1)].get("variant", "asan")]
-        res = run_replay(mode_exe, path, quarantine, tier, scratch)
+        res = run_replay(exe_for_case(path), path, quarantine, tier, scratch)
         corpus_ran += 1
         if res["kind"] == "harness":
             broken.append("corpus case %s: %s" % (path, res["detail"]))
         elif res["kind"] not in ("ok", "skip"):
             violations.append((path, res))
     for ap_, f in repro_paths.items():
-        res = run_replay(default_exe, ap_, [], tier, scratch)   # without quarantine: must still fail
+        res = run_replay(exe_for_case(ap_), ap_, [], tier, scratch)   # without quarantine: must still fail
         if res["kind"] in ("ok", "skip"):
             notes.append("NOTE: known finding %s no longer reproduces (%s)" % (f["id"], f["repro"]))
         elif re.search(f["signature_regex"], res.get("signature", "")):
@@ -265,11 +292,11 @@ def _generic(args, cfg, prop, tier, t0, known, open_f, quarantine, run_dir, scra
     worker_procs = []
     for mname, m in modes.items():
         t = m[tier]
-        exe = exes[m.get("variant", "asan")]
+        exe = exes[ekey(m)]
         nworkers = int(t.get("workers", 12))
         for k in range(nworkers):
             out = os.path.join(run_dir, "out-%s-%d" % (mname, k))
-            cmd = [exe, "--search", "--mode", mname, "--seed", str(args.seed * 100 + k + 1), "--cases",
+            cmd = [exe, "--search", "--mode", m.get("harness_mode", mname), "--seed", str(args.seed * 100 + k + 1), "--cases",
                    str(max(1, int(t["cases"] * args.scale))), "--size", str(t.get("size", 100)), "--tier", tier,
                    "--worker", str(k), "--out", out, "--scratch", os.path.join(scratch, "%s-%d" % (mname, k))]
             if quarantine:
@@ -319,7 +346,8 @@ def _generic(args, cfg, prop, tier, t0, known, open_f, quarantine, run_dir, scra
     per_mode = {}
     for (w, r) in done:
         mname, k, out, cmd = w
-        js = os.path.join(out, "worker-%s-%d.json" % (mname, k))
+        emode = modes[mname].get("harness_mode", mname)
+        js = os.path.join(out, "worker-%s-%d.json" % (emode, k))
         if not os.path.exists(js):
             if r == -9:
                 continue
@@ -340,7 +368,7 @@ def _generic(args, cfg, prop, tier, t0, known, open_f, quarantine, run_dir, scra
             excluded[l] = excluded.get(l, 0) + c
         if k < 3:
             samples += st["samples"][:3]
-        fp_files.append(os.path.join(out, "worker-%s-%d.fp" % (mname, k)))
+        fp_files.append(os.path.join(out, "worker-%s-%d.fp" % (emode, k)))
         for f in st["failures"]:
             fpath = f["file"]
             res = f["result"]
@@ -348,7 +376,7 @@ def _generic(args, cfg, prop, tier, t0, known, open_f, quarantine, run_dir, scra
                 broken.append("harness error in %s: %s" % (fpath, res["detail"]))
                 continue
             # replay three times; all must fail the same way to count
-            exe = exes[modes[mname].get("variant", "asan")]
+            exe = (exes[ekey(modes[mname])], mode_opts(modes[mname]))
             reps = [run_replay(exe, fpath, quarantine, tier, scratch) for _ in range(3)]
             if all(rr["kind"] not in ("ok", "skip", "harness") for rr in reps):
                 res = reps[0]
